@@ -65,6 +65,9 @@ func gen(g *mon.Gen) {
 					if !exc && size == 0 && (client != clientx.Serial || g.Thorough()) {
 						g.Emit(&Case{Client: client, FC: fc, Mode: "session", Seed: rng.Int63()})
 					}
+					if !exc && size == 0 {
+						g.Emit(&Case{Client: client, FC: fc, Mode: "session-slow", Seed: rng.Int63()})
+					}
 					if !exc && size == 0 && client != clientx.TCP && fc <= 4 {
 						g.Emit(&Case{Client: client, FC: fc, Mode: "crc-lookalike", Seed: rng.Int63()})
 					}
@@ -347,7 +350,7 @@ func run(ci any, r *mon.Rec) {
 		}
 		j2.schedule(xport.Cuts(len(rep), []int{3, 5}, 0), 72)
 		j2.schedule(xport.Cuts(len(rep), []int{1, 5}, 1), 73)
-	case "session":
+	case "session", "session-slow":
 		// several exchanges on ONE client; every response is kept and re-verified after the later calls
 		// half of the sessions use a short total read timeout and idle longer than that between calls: time spent idle must
 		// not count against the next call
@@ -355,14 +358,24 @@ func run(ci any, r *mon.Rec) {
 		if c.Seed%2 == 0 {
 			rtS, idle = 250*time.Millisecond, 350*time.Millisecond // generous: a correct client needs microseconds per exchange
 		}
-		sess := clientx.NewSession(c.Client, clientx.Options{ReadTimeout: rtS})
+		// a third of the other sessions talk to a slow device: the first part of every reply takes 90 ms, far longer than
+		// the write timeout (20 ms) and far shorter than the read timeout (3 s); only the read timeout bounds a reply
+		slow := c.Mode == "session-slow"
+		if slow {
+			idle = 0
+		}
+		wt := time.Duration(0)
+		if slow {
+			rtS, wt = 3*time.Second, 20*time.Millisecond
+		}
+		sess := clientx.NewSession(c.Client, clientx.Options{ReadTimeout: rtS, WriteTimeout: wt})
 		type kept struct {
 			resp packet.Response
 			want []byte
 		}
 		var keep []kept
 		ncalls := 6
-		if idle > 0 {
+		if idle > 0 || slow {
 			ncalls = 3
 		}
 		for i := 0; i < ncalls; i++ {
@@ -371,7 +384,7 @@ func run(ci any, r *mon.Rec) {
 				continue // FC23: every exchange times out (known finding), not a session matter
 			}
 			var cuts []int
-			if len(rep) > 2 && rng.Intn(2) == 0 {
+			if len(rep) > 2 && (slow || rng.Intn(2) == 0) {
 				cuts = []int{1 + rng.Intn(len(rep)-1)}
 			}
 			if e := rq.ExpectedResponseLength(); e < len(rep) {
@@ -380,7 +393,12 @@ func run(ci any, r *mon.Rec) {
 			if i > 0 && idle > 0 {
 				time.Sleep(idle)
 			}
-			out := sess.Do(rq, xport.Script{Reply: rep, Steps: xport.Cuts(len(rep), cuts, 0), Tail: "deadline"})
+			steps := xport.Cuts(len(rep), cuts, 0)
+			if slow && len(steps) > 1 {
+				steps[0].SleepMs = 90
+				r.Cover("session", "slow-first-fragment")
+			}
+			out := sess.Do(rq, xport.Script{Reply: rep, Steps: steps, Tail: "deadline"})
 			r.Eval(1)
 			if out.Hung || out.Panic != "" || out.Err != nil || libx.IsNilValue(out.Resp) {
 				reads := 0
@@ -391,7 +409,7 @@ func run(ci any, r *mon.Rec) {
 				}
 				// verdict from the transport log: the whole reply was available in the first read(s); a failure with fewer
 				// reads than needed to fetch it means the client gave up without looking
-				r.Violate(c, "session-call-fails", mon.Attrs{"client": clientx.KindName(c.Client), "fc": int(c.FC), "idle_gap": idle > 0}, fmt.Sprintf("call %d of a session (idle %v before it, read timeout %v): err=%v panic=%q hung=%v after %d transport reads, %d of %d reply bytes handed over", i, idle, rtS, out.Err, out.Panic, out.Hung, reads, out.Conn.Delivered(), len(rep)))
+				r.Violate(c, "session-call-fails", mon.Attrs{"client": clientx.KindName(c.Client), "fc": int(c.FC), "idle_gap": idle > 0, "slow_device": slow}, fmt.Sprintf("call %d of a session (idle %v before it, read timeout %v): err=%v panic=%q hung=%v after %d transport reads, %d of %d reply bytes handed over", i, idle, rtS, out.Err, out.Panic, out.Hung, reads, out.Conn.Delivered(), len(rep)))
 				break
 			}
 			keep = append(keep, kept{out.Resp, rep})
